@@ -123,7 +123,7 @@ func init() {
 	shape := "invoice skeletons: 1..2 lines (price with currency or currency+2 decimals, quantity with 0 or 2 decimals, VAT 21% or 10%, optional line discount percent/fixed, optional line charge percent/fixed/rate), optional document discount and charge (percent/fixed), optional advance (percent/fixed) and percentage due date, optional tax-included prices; ALL prices, quantities and fixed amounts symbolic of either sign (|v| <= 2^32); EUR"
 	reg(billCfg("C03", `^H_C03_`, []string{shape, "currency rounding rule; fixed amounts at currency precision; a supplied rounding amount next to a fixed advance; one line with every line-level construction (H_C03_LineVariants)"}, []string{shape + "; quantities from {3, -2, 7} on the first line; the larger alternatives of the skeleton (fixed line and document charges, a percentage advance alone); fully symbolic quantities and a second line with the full variety were tried, did not complete within the budget and are not claimed"},
 		[]string{"more than 2 lines; sub-line breakdowns; foreign-currency items; regime-default rule selection (the rule is passed explicitly)"}))
-	reg(billCfg("C04", `^H_C04_`, []string{shape, "one line; both rounding rules; fixed amounts with currency or currency+2 decimals; second calculation from the first one's heap with the tax summary kept or dropped; foreign-currency item with alternative price or exchange rate (H_C04_AltPrice); line price built from a breakdown of 1..2 sub-lines with group / sub-line currencies (H_C04_Breakdown)"}, []string{shape + "; one line; quantities from {3, -2, 7} (larger spaces - tax-included prices by choice: 38002 paths clean in 24 minutes, the whole budget; - the bigger alternatives of the skeleton, JPY - explored 56165 / 58857 paths clean in 25 minutes without finishing and are not claimed)"},
+	reg(billCfg("C04", `^H_C04_`, []string{shape, "one line; both rounding rules; fixed amounts with currency or currency+2 decimals; second calculation from the first one's heap with the tax summary kept or dropped; foreign-currency item with alternative price or exchange rate (H_C04_AltPrice); line price built from a breakdown of 1..2 sub-lines with group / sub-line currencies, sub-line prices with 2, 1 or 0 decimals (the coarser ones with a fractional quantity) (H_C04_Breakdown)"}, []string{shape + "; one line; quantities from {3, -2, 7} (larger spaces - tax-included prices by choice: 38002 paths clean in 24 minutes, the whole budget; - the bigger alternatives of the skeleton, JPY - explored 56165 / 58857 paths clean in 25 minutes without finishing and are not claimed)"},
 		[]string{"byte identity of encoding/json output, struct-tag driven (un)marshalling, schema.Object insertion, string normalisers and scenario notes (reflection / regexp over unbounded strings)", "amount codec losslessness is C06"}))
 }
 
@@ -203,9 +203,9 @@ func init() {
 
 func init() {
 	reg(billCfg("C01", `^H_C01_`,
-		[]string{"unit layer, each step from a symbolic pre-state: calculateLine (price with currency / +2 / +4 decimals, quantity with 0..2 decimals, percentage discount, percentage or rate charge), calculateDiscounts/Charges (+ sums, with and without explicit base), calculateAdvances/totalAdvance/CalculateDues, calculateLineItemPrice (USD/JPY item, exchange rate or alternative price); all values symbolic (|v| <= 2^32), both rounding rules; EUR", "whole pipeline under 'precise' against exact rational arithmetic (H_C01_Pipeline): 1-2 lines, price symbolic (|v| <= 10^6 units, 2 or 4 decimals), quantity from {3, -2, 7} with 0 or 2 decimals, optional 10 % line discount, optional 5 % document discount, VAT 21 %: sum, total, tax, total with tax and payable each less than one minor unit from the exact value (quick: the second line has 2 decimals and a whole quantity)"},
+		[]string{"unit layer, each step from a symbolic pre-state: calculateLine (price with currency / +2 / +4 decimals, quantity with 0..2 decimals, percentage discount, percentage or rate charge), calculateSubLine (breakdown row: price with currency / +2 decimals, quantity 0..1 decimals, percentage discount and charge of the row sum), calculateDiscounts/Charges (+ sums, with and without explicit base), calculateAdvances/totalAdvance/CalculateDues, calculateLineItemPrice (USD/JPY item, exchange rate or alternative price); all values symbolic (|v| <= 2^32), both rounding rules; EUR", "whole pipeline under 'precise' against exact rational arithmetic (H_C01_Pipeline): 1-2 lines, price symbolic (|v| <= 10^6 units, 2 or 4 decimals), quantity from {3, -2, 7} with 0 or 2 decimals, optional 10 % line discount, optional 5 % document discount, VAT 21 %: sum, total, tax, total with tax and payable each less than one minor unit from the exact value (quick: the second line has 2 decimals and a whole quantity)"},
 		[]string{"same with JPY and BHD"},
-		[]string{"whole-pipeline comparison with a reference implementation under the precise rule and the 'less than a full minor unit' bound (only the per-step exactness is decided; the pipeline's accounting identities are decided under the currency rule in C03)", "sub-line breakdowns", "regime-default rule selection"}))
+		[]string{"whole-pipeline comparison with a reference implementation under the precise rule and the 'less than a full minor unit' bound (only the per-step exactness is decided; the pipeline's accounting identities are decided under the currency rule in C03)", "breakdown rows beyond the single-row step (several discounts or charges per row, explicit bases, the line price derived from the rows)", "regime-default rule selection"}))
 }
 
 func init() {
